@@ -125,6 +125,25 @@ class LDMMaintenance:
             print(
                 f"Error deleting data container: {str(e)}, data_containers {len(self.data_containers.all())}")
 
+    def del_provider_data_by_id(self, data_object_id: int) -> bool:
+        """
+        Method created in order to delete the data stored under an identifier from the data containers.
+
+        Parameters
+        ----------
+        data_object_id : int
+
+        Returns
+        -------
+        bool
+            True if an object was stored under the identifier and has been removed.
+        """
+        try:
+            return bool(self.data_containers.remove_by_id(data_object_id))
+        except (ValueError, KeyError, json.decoder.JSONDecodeError) as e:
+            print(f"Error deleting data container: {str(e)}")
+            return False
+
     def get_all_data_containers(self) -> tuple[dict, ...]:
         """
         Method created in order to get all the data containers.
